@@ -152,7 +152,19 @@ def run(ctx):
         W = rand_weights(rng, npts) if i % 9 != 4 else rand_weights(rng, npts, rng.choice(["tiny", "nearequal", "huge", "neg"]))
         if rep in ("float", "npfloat") and W is not None:
             W = [F(rng.randint(2, 50), 10) for _ in range(npts)]
+        if i % 11 == 6 and rep == "fraction":
+            # an exact zero among positive weights (degree >= 2, simple interior knots: at every parameter at least one other basis
+            # function is positive, so the weight function has no zero): R_i = 0 for that control point
+            p_ = rng.randint(2, 4)
+            U = rand_kv(rng, p=p_, nintmax=2, maxmult=1)
+            p, npts, knots = kv_info(U)
+            P = rand_points(rng, npts)
+            W = [F(rng.randint(1, 9), rng.randint(1, 3)) for _ in range(npts)]
+            W[rng.randrange(1, npts - 1)] = F(0)
+            us = params_for(rng, U) + hair_params(U)
         us = params_for(rng, U) + (hair_params(U) if rep == "fraction" else [])
+        if W is not None and any(w == 0 for w in W):
+            ctx["rec"].count("weights-kind", "with-an-exact-zero")
         if i % 5 == 0:
             us += [U[0] - F(1, 7), U[-1] + F(3, 1000)]
         run_case(ctx, ser(dict(kind="eval", U=U, P=P, W=W, us=us, rep=rep)))
